@@ -296,3 +296,82 @@ def run_restore_key(run, P):
             return None
         solve(f, Env({'k': ()}), on_event, None, keys, R, key_fn=lambda e: e.ts.get('k'))
     run.require(n >= 1 or run.fixture_mode, 'R-PERSIST(restored key): no function both re-creates subscriptions and rewrites their records')
+
+
+def run_copy_through(run, P):
+    """R-PERSIST (copy-through): the updaters rewrite the whole file: a loop reads one record after the other from the old file and
+    writes the ones to keep into the temporary file.  Record readers / writers are computed: library functions with a FILE* first
+    parameter that take at least two further out-pointer (reader) / value (writer) parameters and are called with the address of
+    locals.  Obligation: a record-write call that sits inside the loop of a record-read call passes, in every argument after the
+    stream, only variables that the read call filled (`&x` there, `x` / `*x` / a cast of it here) -- a kept record that is written back
+    with someone else's field (the new registration's packet, the key being deleted) is silently a different record after the restart."""
+    from core.prog import strip, walk, ap, short, dominators, succs
+    run.rule('R-PERSIST')
+    from rules.r_sizefill import natural_loops
+    # readers: called with >= 2 address-of-local arguments after a FILE* first argument
+    readers, writers = set(), set()
+    for f in P.lib_funcs():
+        if not f['params'] or 'FILE' not in (f['params'][0].get('t') or ''):
+            continue
+        outs = [p for p in f['params'][1:] if p.get('p') and not p.get('pc') and '*' in (p.get('t') or '')]
+        if len(outs) >= 2 and len(outs) == len(f['params']) - 1:
+            readers.add(f['name'])
+        elif len(f['params']) >= 3:
+            writers.add(f['name'])
+    n = 0
+    for f in sorted(P.lib_funcs(), key=lambda f: f['name']):
+        B = f['B']
+        calls = []
+        for b, ev in P.events(f):
+            for t in walk(ev['e']):
+                if isinstance(t, dict) and t.get('k') == 'call' and t.get('fn') in (readers | writers):
+                    calls.append((b['id'], ev, t))
+        for b in f['blocks']:
+            c = (b.get('term') or {}).get('cond')
+            if c is not None:
+                for t in walk(c):
+                    if isinstance(t, dict) and t.get('k') == 'call' and t.get('fn') in (readers | writers):
+                        calls.append((b['id'], {'loc': b['term'].get('loc'), 'e': t}, t))
+        rd = [c for c in calls if c[2]['fn'] in readers]
+        wr = [c for c in calls if c[2]['fn'] in writers]
+        if not rd or not wr:
+            continue
+        try:
+            loops = natural_loops(f)
+        except KeyError:
+            continue
+        for h, body in sorted(loops.items()):
+            lrd = [c for c in rd if c[0] in body]
+            lwr = [c for c in wr if c[0] in body]
+            if not lrd or not lwr:
+                continue
+            filled = set()
+            for _b, _ev, t in lrd:
+                for a in t.get('a', [])[1:]:
+                    a0 = strip(a)
+                    if isinstance(a0, dict) and a0.get('k') == 'un' and a0.get('op') == '&' and ap(a0.get('e')):
+                        filled.add(ap(a0['e']))
+            # a local assigned inside the loop from a call that is handed filled variables is derived from the record too (the restored key)
+            ch = True
+            while ch:
+                ch = False
+                for bid in body:
+                    for ev in B[bid]['elems']:
+                        t = ev['e']
+                        if t.get('k') == 'asg' and t.get('op') == '=' and ap(t['l']) and ap(t['l']) not in filled:
+                            if any(isinstance(x, dict) and ap(x) in filled for x in walk(t['r'])):
+                                filled.add(ap(t['l']))
+                                ch = True
+            for _b, ev, t in lwr:
+                n += 1
+                run.instance('R-PERSIST', '%s: %s() inside the loop of %s()' % (f['name'], t['fn'], lrd[0][2]['fn']))
+                for i, a in enumerate(t.get('a', [])[1:], 1):
+                    vars_ = set(ap(x) for x in walk(a) if isinstance(x, dict) and x.get('k') == 'var' and ap(x))
+                    foreign = sorted(v for v in vars_ if v not in filled)
+                    ok = not foreign
+                    run.oblige('R-PERSIST', ok, '%s:copy-through:arg%d' % (f['name'], i))
+                    if not ok:
+                        run.violation('R-PERSIST', f['name'], ev['loc'], 'kept-record-written-with-foreign-field:arg%d' % i,
+                                      'a record that is only being copied into the new file is written with %s as argument %d, which the read call of this loop did not fill: the '
+                                      'record on disk is no longer the one that was read' % (short(a)[:40], i), [])
+    run.require(n >= (4 if run.cfg == 'base' else 0) or run.fixture_mode, 'R-PERSIST(copy-through): fewer than 4 record writes inside record-reading loops found')
